@@ -51,7 +51,7 @@ TEXT["C14"] = {
 TEXT["C15"] = {
     "technique": "property-based testing (rapid); metamorphic relation marked-document vs hand-stripped document, reference implementation for spaceless",
     "text": "Generated documents (with files pulled in by include or ssi parsed) whose literal text carries random whitespace runs around constructs, every delimiter independently marked with '-', under all four TrimBlocks x LStripBlocks settings, are rendered and compared byte for byte with the same document from which exactly the named whitespace was deleted by hand, compiled with everything off; documents are single files, files with includes, or two-level hierarchies, and in a quarter of the cases the options are set per template (tpl.Options) with the hand-stripped reference compiled in the same set. spaceless is compared with an independent fixed-point implementation of 'remove exactly the whitespace runs between two tags' over bodies with stray angle brackets, multi-line tags and context-supplied markup. C15.sides checks that a '-' does on its side exactly what it does alone, over text with ASCII and Unicode whitespace.",
-    "note": "Trusted: the hand-stripping function (c15Strip) and refSpaceless in harness/props/c15_test.go. Verbatim next to markers, comments next to markers/block tags, and option handling across extends are deliberately outside (see evidence assumptions).",
+    "note": "Trusted: the hand-stripping function (c15Strip) and refSpaceless in harness/props/c15_test.go. Comments next to markers / block tags and option handling across extends are deliberately outside (see evidence assumptions); verbatim blocks are opaque constructs whose body must come out untouched.",
     "design_ref": "DESIGN.md section 3, C15",
 }
 
